@@ -339,9 +339,23 @@ func (g *Gen) block(head string, body []stmt) []string {
 		}
 		return []string{head + open + strings.Join(parts, g.pick("; ", ";", " ; ")) + cl}
 	}
-	out := []string{head + "{"}
+	opn := head + "{"
+	if g.chance(g.comments * 0.5) {
+		g.f("comment:after-open-brace")
+		opn += " # after brace"
+	}
+	out := []string{opn}
 	out = append(out, g.layout(body, g.indentUnit)...)
-	out = append(out, "}")
+	if g.chance(g.comments * 0.4) {
+		g.f("comment:before-close-brace")
+		out = append(out, g.indentUnit+g.pick("# last", `""" last block """`))
+	}
+	cl := "}"
+	if g.chance(g.comments * 0.3) {
+		g.f("comment:after-close-brace")
+		cl += " # closed"
+	}
+	out = append(out, cl)
 	return out
 }
 
@@ -435,6 +449,23 @@ func (g *Gen) shapeStmt(depth int) stmt {
 			return stmt{lines: []string{n + g.sep() + "|||md a || b | c |||"}}
 		}
 	default:
+		switch g.R.Intn(8) {
+		case 0:
+			g.f("scalar:number-forms")
+			return stmt{lines: []string{n + g.sep() + g.pick("1.50", "007", "1e3", "-4", "+.5", "0x1F", "1_000")}}
+		case 1:
+			g.f("scalar:boolean-case")
+			return stmt{lines: []string{n + g.sep() + g.pick("TRUE", "False", "true")}}
+		case 2:
+			g.f("attr:icon")
+			return stmt{lines: []string{n + "." + g.kw("icon") + g.sep() + g.pick("https://icons.terrastruct.com/essentials%2F213-alarm.svg", `"https://example.com/a b.png"`)}}
+		case 3:
+			g.f("string:escapes")
+			return stmt{lines: []string{n + g.sep() + g.pick(`a\:b`, `"q\"uote"`, `dollar \$x`, `semi\; colon`, `'single ''quoted'''`, `a\#b`, `tab\tsep`, `"nl\nin dq"`)}}
+		case 4:
+			g.f("key:escapes")
+			return stmt{lines: []string{g.pick(`a\.b`, `x\:y`, `"dotted.key"`, `'single.key'`, `a\-\-b`, `sp\ ace`) + g.sep() + g.label()}}
+		}
 		return stmt{lines: []string{n + g.sep() + g.label()}}
 	}
 }
@@ -566,7 +597,16 @@ func (g *Gen) varsStmt() stmt {
 			body = append(body, stmt{lines: []string{v + g.sep() + "[1; 2;3]"}})
 		} else {
 			g.f("array:multi-line")
-			body = append(body, stmt{lines: []string{v + g.sep() + "[", g.indentUnit + "one", g.indentUnit + "two; three", "", g.indentUnit + "4", "]"}})
+			lines := []string{v + g.sep() + "[", g.indentUnit + "one", g.indentUnit + "two; three", "", g.indentUnit + "4", "]"}
+			if g.comments > 0 && g.chance(0.5) {
+				g.f("comment:in-array")
+				lines = []string{v + g.sep() + "[ # open", g.indentUnit + "one # first", g.indentUnit + "# alone", g.indentUnit + "two; three", "",
+					g.indentUnit + `""" blk """`, g.indentUnit + "4", "]"}
+			} else if g.chance(0.3) {
+				g.f("array:nested")
+				lines = []string{v + g.sep() + "[", g.indentUnit + "[1; 2]", g.indentUnit + "[", g.indentUnit + g.indentUnit + "x", g.indentUnit + "]", g.indentUnit + "{a: b}", "]"}
+			}
+			body = append(body, stmt{lines: lines})
 		}
 	}
 	if g.chance(0.25) {
@@ -862,6 +902,9 @@ func (g *Gen) Program(profile string) Program {
 		prof = map[string]float64{"edges": 1, "boards": 0.5, "globs": 0.4, "vars": 0.6, "imports": 0.3, "classes": 0.4, "special": 0.4}
 		g.kwCase = 0.15
 		g.comments = 0.1
+	}
+	if g.comments == 0 && g.chance(0.25) {
+		g.comments = 0.2
 	}
 	g.f("profile:" + profile)
 	body := g.boardBody(0, prof, true)
